@@ -58,11 +58,20 @@ Proof.
   - apply H4. apply IH.
 Qed.
 
-Lemma quiet_nan_free : forall l, nan_free l = true -> quiet_groups l = l.
+Lemma lor_bit6 b : N.testbit b 6 = true -> N.lor b 64 = b.
 Proof.
-  apply (list_ind4 (fun l => nan_free l = true -> quiet_groups l = l)); try reflexivity.
-  intros a b c d r IH H. cbn [nan_free] in H. apply andb_prop in H as [H1 H2].
-  apply negb_true_iff in H1. cbn [quiet_groups]. rewrite H1, (IH H2). reflexivity.
+  intros H. apply N.bits_inj. intros n. rewrite N.lor_spec.
+  change 64 with (2 ^ 6). rewrite N.pow2_bits_eqb.
+  destruct (N.eqb_spec 6 n) as [<-|]; [now rewrite H | apply orb_false_r].
+Qed.
+
+Lemma quiet_snan_free : forall l, snan_free l = true -> quiet_groups l = l.
+Proof.
+  apply (list_ind4 (fun l => snan_free l = true -> quiet_groups l = l)); try reflexivity.
+  intros a b c d r IH H. cbn [snan_free] in H. apply andb_prop in H as [H1 H2].
+  apply negb_true_iff in H1. cbn [quiet_groups]. rewrite (IH H2). unfold is_snan4 in H1.
+  destruct (is_nan4 a b c d); [|reflexivity].
+  cbn [andb] in H1. apply negb_false_iff in H1. now rewrite lor_bit6.
 Qed.
 
 Lemma srangeb_range k z : srangeb k z = true -> signed_range k z.
@@ -93,7 +102,7 @@ Lemma parse_pack_var tv v : wf_var tv = true -> val_ok tv v = true ->
 Proof.
   intros Hwf Hok. pose proof (wf_var_class tv Hwf) as Hc.
   unfold pack_var, parse_var, pack_val, unpack_val, val_ok in *. rewrite varlen_class.
-  destruct (classify (vty tv)) as [k|k|k|k|c| |] eqn:Ec; destruct v as [n|z|l]; try discriminate.
+  destruct (classify (vty tv)) as [k|k|k|k|c| |] eqn:Ec; destruct v as [n|z|l|l]; try discriminate.
   - (* unsigned little endian *)
     destruct Hc as [Hs Hk]. rewrite Hok. exists (le_bytes k n). repeat split.
     + apply nonempty_len. rewrite le_bytes_length. exact Hk.
@@ -126,7 +135,7 @@ Proof.
     + apply nonempty_len. lia.
     + exact Hb.
     + intros r. rewrite Hs, (takeN_app_n (4 * c)) by exact Hl. rewrite Hl, Nat.eqb_refl.
-      now rewrite quiet_nan_free.
+      now rewrite quiet_snan_free.
   - (* Fixed *)
     apply andb_prop in Hok as [Hl Hb]. apply Nat.eqb_eq in Hl.
     exists l. repeat split.
